@@ -135,6 +135,41 @@ fn one_jet(cx: &mut Ctx, sig: &JetSig, n_random: usize) {
         }
     }
 
+    // a result bound at a type of the same layout but another name is rejected as well
+    // (the documented result TYPE is what the property fixes, not only its shape)
+    for other in cast_variants(&sig.rret).into_iter().filter(|t| *t != sig.rret).take(3) {
+        if layout_type(&other) != layout_type(&sig.rret) {
+            continue;
+        }
+        let (prog, _) = call_program(&sig.name, &other, &sig.params);
+        let text = render_plain(&prog);
+        cx.report.evaluations += 1;
+        match accepts(&text) {
+            Outcome::Ok(()) => {
+                cx.report.violation(json!({"kind": "acceptance", "what": format!("jet {}: result (documented {}) bound at the same-layout type {} accepted", sig.name, render_ty(&sig.rret), render_ty(&other)),
+                    "program": text, "signature": format!("jetcall-ret-layout:{}", sig.name)}));
+            }
+            _ => cx.report.count("same_layout_result_type_rejected", 1),
+        }
+    }
+
+    // ... and so is an argument of a same-layout type with another name
+    for (i, pt) in sig.rparams.iter().enumerate() {
+        let Some(other) = cast_variants(pt).into_iter().find(|t| t != pt && layout_type(t) == layout_type(pt)) else { continue };
+        let mut tys = sig.params.clone();
+        tys[i] = other.clone();
+        let (prog, _) = call_program(&sig.name, &sig.ret, &tys);
+        let text = render_plain(&prog);
+        cx.report.evaluations += 1;
+        match accepts(&text) {
+            Outcome::Ok(()) => {
+                cx.report.violation(json!({"kind": "acceptance", "what": format!("jet {}: argument {i} (documented {}) of the same-layout type {} accepted", sig.name, render_ty(pt), render_ty(&other)),
+                    "program": text, "signature": format!("jetcall-arg-layout:{}:{i}", sig.name)}));
+            }
+            _ => cx.report.count("same_layout_argument_type_rejected", 1),
+        }
+    }
+
     // (d) modelled jets: values
     let probe_args: Vec<Val> = sig.rparams.iter().map(zero_val).collect();
     if jetmodel::model(sig, &probe_args).is_none() || !is_sum_free(&sig.rret) {
